@@ -208,4 +208,4 @@ func main() {
 
 var extraGens []func()
 var heavyGens []func()
-var heavyDeadline = flag.Duration("heavy-deadline", 40*time.Second, "deadline per heavy generator")
+var heavyDeadline = flag.Duration("heavy-deadline", 15*time.Second, "deadline per heavy generator")
